@@ -184,7 +184,7 @@ def run_case(case):
             app_sock_at_return = app.sock
             if closer is not None:
                 closer.join()
-            out.append({"ret": ret, "exc": exc, "trace": traces[-1], "t0": t0, "t1": sched.now, "app_sock": app_sock_at_return,
+            out.append({"closer_exc": getattr(closer, "exc", None), "ret": ret, "exc": exc, "trace": traces[-1], "t0": t0, "t1": sched.now, "app_sock": app_sock_at_return,
                         "socks": net.sockets[nsock:], "open_at_return": open_at_return, "alive": alive_at_return,
                         "keep_running": app.keep_running})
 
@@ -209,6 +209,9 @@ def run_case(case):
         if o["exc"] is not None:
             obs.fail(exc_bucket(f"{tag}|run_forever-raised", o["exc"]), f"{type(o['exc']).__name__}: {o['exc']}")
             continue
+        if o.get("closer_exc") is not None:
+            # close() called from the application's own thread fails (whatever state the run is in, it is a request to stop)
+            obs.fail(exc_bucket(f"{tag}|close()-raised-in-the-calling-thread", o["closer_exc"]), f"{type(o['closer_exc']).__name__}: {o['closer_exc']}")
         closes = [i for i, e in enumerate(tr) if e[1] == "on_close"]
         if len(closes) != 1:
             obs.fail(f"{tag}|on_close-called-{len(closes)}-times", f"trace: {[e[1] for e in tr][-8:]}")
@@ -424,6 +427,50 @@ def close_race_cases(shard, of):
                         yield c
 
 
+# scenarios in which two threads are inside the closing code at the same time
+MEETINGS = [
+    # close() from a second thread while the server's answer ends the run in the main thread
+    {"runs": [{"traffic": [[0.2, [{"op": 1, "p": b"hello"}]]], "ending": {"kind": "thread-close", "at": 0.5, "gap": 2.0, "srv_close": ["reply", 0.0]}}]},
+    # the server's own close frame arrives at the instant the application calls close()
+    {"runs": [{"traffic": [[0.5, [{"op": 8, "p": b"\x03\xe8"}]]], "ending": {"kind": "thread-close", "at": 0.5, "gap": 2.0, "srv_close": ["reply", 0.0]}}]},
+    # ... over TLS with keepalive, the connection lost at that instant
+    {"runs": [{"traffic": [[0.3, [{"op": 9, "p": b"pg"}]]], "ending": {"kind": "thread-close", "at": 0.5, "gap": 0.2, "srv_close": ["never"]}}], "secure": True, "ping": [2.5, 1]},
+]
+MEET_LINES = 14
+
+
+def _func_lines(case):
+    """{"file.py:function": line events} of one traced run of the scenario without preemption."""
+    holder = {}
+    orig = simkit.Sched.__init__
+
+    def patched(self, *a, **kw):
+        orig(self, *a, **kw)
+        holder["s"] = self
+
+    simkit.Sched.__init__ = patched
+    try:
+        run_case(dict(case, preempt_at={"__probe__": {"1": 1}}))
+    finally:
+        simkit.Sched.__init__ = orig
+    return dict(holder["s"]._fcount)
+
+
+def meeting_cases(mi, shard, of):
+    base = MEETINGS[mi]
+    funcs = _func_lines(base)
+    i = 0
+    for key in sorted(funcs):
+        if not key.startswith(("_app.py:", "_core.py:", "_socket.py:", "_dispatcher.py:")):
+            continue
+        for line in range(1, min(funcs[key], MEET_LINES) + 1):
+            for val in (1, [1, 40], [2, 40]):
+                for ch in ([0, 0, 0], [0, 1, 1], [1, 0, 2]):
+                    i += 1
+                    if i % of == shard:
+                        yield dict(base, choices=ch, preempt_at={key: {str(line): val}})
+
+
 def _count_steps(case):
     holder = {}
     orig = simkit.Sched.__init__
@@ -446,6 +493,7 @@ def jobs(tier, seed):
     out.append({"name": "stream-after-close", "kind": "stream"})
     out += [{"name": f"close-codes-{k}", "kind": "codes", "shard": k, "of": 4} for k in range(4)]
     out += [{"name": f"close-race-{k}", "kind": "race", "shard": k, "of": 4} for k in range(4)]
+    out += [{"name": f"meeting-{mi}-{k}", "kind": "meeting", "scenario": mi, "shard": k, "of": 4} for mi in range(len(MEETINGS)) for k in range(4)]
     of = 4 if tier == "quick" else 16
     for fi in range(len(FIXED)):
         for sh in range(of):
@@ -460,6 +508,10 @@ def run_job(job, coll):
         for c in close_code_cases(job["shard"], job["of"]):
             coll.check(c, run_case)
         coll.exhaustive["every close status that may appear on the wire (1000-1003, 1007-1014, 3000-4999) as the server's ending"] = True
+    elif job["kind"] == "meeting":
+        for c in meeting_cases(job["scenario"], job["shard"], job["of"]):
+            coll.check(c, run_case)
+        coll.exhaustive[f"two threads in the closing code: a (held) preemption at each of the first {MEET_LINES} lines of every function, scenario {job['scenario']}"] = True
     elif job["kind"] == "race":
         for c in close_race_cases(job["shard"], job["of"]):
             coll.check(c, run_case)
